@@ -7,9 +7,11 @@ EXPLANATION = ("T1 path-sensitive extraction of LdapResultExt::from: on every su
                "on the context tag of the remaining children is {3 -> referral list via parse_refs, 7 -> SASL creds, 10 -> responseName, "
                "11 -> responseValue} as in RFC 4511, each stored to the variable that feeds the matching field of the returned struct; "
                "Tag::Null yields the all-empty success; T2 op_call returns (result with the envelope's controls, exop, creds) of that "
-               "decoded response and every public operation returns the component its signature names; T3 parse_controls: child 0 -> "
-               "controlType, BOOLEAN second child -> criticality = content[0] != 0 then value, OCTET STRING second child -> value with "
-               "criticality false, absent -> (false, None); the known-OID table equals the RFC OIDs; T4 success()/non_error()/equal() "
+               "decoded response and every public operation returns the component its signature names; T3 parse_controls decided as a function by exact literal evaluation: with the content of the [0] Controls element fixed to every "
+               "list of 0..3 (and one of 8) literal controls over the ways criticality and value can be written (each control with an OID and a value of its own; a lone control with every "
+               "BOOLEAN content octet 00..ff, an empty value, every OID of the known-type table) the returned vector holds one entry per element, in the order of the elements (SEQUENCE OF), "
+               "each with controlType = the text of its OID octets, criticality = content octet != 0 (absent: false), value = its octets (absent: None) and the table's entry for its OID "
+               "as recognised type - whatever walks the list (for / while-let over next or pop / drain / index loop / map-collect); the known-OID table equals the RFC OIDs; T4 success()/non_error()/equal() "
                "are decided completely by evaluating them over the finite partition of result codes induced by the constants they "
                "compare with. Not decided: equality of arbitrary strings through String::from_utf8 / Vec moves (library semantics).")
 TRUSTED = ['String::from_utf8 / Vec move semantics', 'lber TLV parser above the length reader (C07 B1 / B7)']
